@@ -979,6 +979,17 @@ func (_loadUndef) exec(vm *vm) {
 	vm.pc++
 }
 
+type _insertUndefThis struct{}
+
+// insertUndefThis turns the callee on top of the stack into a (this, callee) pair where 'this' is undefined.
+var insertUndefThis _insertUndefThis
+
+func (_insertUndefThis) exec(vm *vm) {
+	vm.push(vm.stack[vm.sp-1])
+	vm.stack[vm.sp-2] = _undefined
+	vm.pc++
+}
+
 type _loadNil struct{}
 
 var loadNil _loadNil
